@@ -31,6 +31,9 @@ TRUSTED_COMMON = [
 ]
 
 
+TRUSTED_QUEUE = [
+    "tools/goqueue (purely syntactic translator, one Go statement of a queue_ method = one constructor of coq/QueueLang.v; fields found by their types, locals by their use) and the meaning given to that micro-language in coq/QueueSem.v (segments between scheduling points; Go channel semantics as a token counter with capacity and closed flag; the mutex as the discipline 'one shared action per segment')",
+]
 TRUSTED_GEN = [
     "tools/gotrans (Go -> MiniGo translator, go/parser based, purely syntactic; regenerates coq/GenSrc.v on every run) and coq/MiniGo.v (the hand-written semantics of the MiniGo terms: unbounded int, value-semantics slices with write-back of receivers, panic messages ignored, generics as an opaque element type, interfaces resolved by dynamic type name); coq/GenRep.v (how model states are represented as MiniGo values)",
 ]
@@ -378,7 +381,12 @@ def check(drv, pid, tier, seed):
     if cfg.get('gen_proofs'):
         nv, gen_extra = gen_check(drv, pid, cfg, info, seed, tier, viol)
         viol += nv
-    nobl, names = drv.count_obligations(cfg['files'] + list(cfg.get('late_files') or []) + list(cfg.get('gen_proofs') or []))
+    queue_extra = None
+    if cfg.get('queue_proofs'):
+        import queuegen
+        nv, queue_extra = queuegen.queue_check(drv, violation, pid, cfg, info, seed, tier, viol)
+        viol += nv
+    nobl, names = drv.count_obligations(cfg['files'] + list(cfg.get('late_files') or []) + list(cfg.get('gen_proofs') or []) + list(cfg.get('queue_proofs') or []))
     ndis = nobl
     if static is not None and not static['ok']:
         ndis = nobl - max(1, len(static.get('failing_lemmas') or []))
@@ -397,13 +405,13 @@ def check(drv, pid, tier, seed):
     ev = dict(property_id=pid, tier=tier, seed=seed, level='proof',
               coverage=dict(obligations=nobl, discharged=ndis,
                             checker_cmd='cd /verif/coq && coq_makefile -f _CoqProject -o Makefile && make -j16  (coqc 8.16.1, full .vo build); then coqc on build/%s/cases_*.v (vm_compute of the model on the generated histories)' % pid,
-                            trusted_base=assumptions_of(drv, pid) + (static.get('assumptions', []) if static is not None else []) + TRUSTED_COMMON + (TRUSTED_GEN if cfg.get('gen_proofs') else []),
+                            trusted_base=assumptions_of(drv, pid) + (static.get('assumptions', []) if static is not None else []) + TRUSTED_COMMON + (TRUSTED_GEN if cfg.get('gen_proofs') else []) + (TRUSTED_QUEUE if cfg.get('queue_proofs') else []),
                             evaluations=meta['cases'], distinct_nontrivial=meta['distinct_nontrivial'], rule=meta['rule'],
                             samples=meta['samples'], steps=meta['steps'],
                             traces_validated_against_impl=meta['cases'],
                             op_histogram=meta.get('op_histogram'), outcome_histogram=meta.get('outcome_histogram'),
                             type_histogram=meta.get('type_histogram'), length_histogram=meta.get('length_histogram'), extra=meta.get('extra'),
-                            generated_code=gen_extra,
+                            generated_code=gen_extra, generated_queue_methods=queue_extra,
                             hangs=meta.get('hangs', 0), mismatching_cases=len(mism), known_findings_reported=sorted(known_hit),
                             params=info.get('genparams'), obligations_files=cfg['files'] + list(cfg.get('late_files') or []), coqchk=coqchk,
                             late_files=(dict(ok=static['ok'], files=static['files'], seconds=static['seconds'], failing_lemmas=static.get('failing_lemmas'),
